@@ -1,4 +1,5 @@
 import PhysisModel.Proofs.Shpk
+import PhysisModel.Proofs.Mtrl
 import PhysisModel.Properties.C12
 /-!
 # C14 — materials and shader packages decode to what their files store
@@ -129,6 +130,82 @@ theorem c14_shpk_find_node (f : PackageF) (h : WF f = true) (sel : UInt32) :
   have := c14_find_node (view f) sel
     (c14_from_existing_selectors _ _ (c14_shpk_parse_encode f h)) hn
   simpa only [view, List.length_map] using this
+
+/-! ## materials: parsing returns what the file stores -/
+
+/-- For every well-formed stored material `m` (0..255 textures, UV / colour sets, any additional
+data, absent / legacy 16-row / Dawntrail 32-row / undecoded colour table with **arbitrary** half
+patterns, absent / legacy / Dawntrail / undecoded dye table, any number of shader keys, constants of
+0..4 floats, samplers, shader values, trailing bytes), `Material::from_existing` on the encoded file
+returns exactly `view m`: the shader package name and texture paths from the string heap, keys,
+constants with their float values, samplers, and every colour-table / dye-table row with each
+component taken from **its own** stored half-word (`decodeLegacyRow`, `decodeDawntrailRow`) or bit
+field (`packLegacyDye`, `packDawntrailDye`). -/
+theorem c14_mtrl_parse_encode (m : Spec.Mtrl.MaterialF) (h : Spec.Mtrl.WF m = true) :
+    Mtrl.fromExisting (Spec.Mtrl.encode m) = .ok (Spec.Mtrl.view m) :=
+  Mtrl.fromExisting_encode m h
+
+/-- what "its own stored half" means for a legacy row, spelled out: the sixteen stored words go,
+in order, to diffuse r g b, specular strength, specular r g b, gloss strength, emissive r g b,
+tile set (raw), repeat x y, skew x y — each widened by `halfToF32` on its own. -/
+theorem c14_legacy_row_components (d0 d1 d2 ss s0 s1 s2 gs e0 e1 e2 ts r0 r1 k0 k1 : UInt16) :
+    Spec.Mtrl.decodeLegacyRow [d0, d1, d2, ss, s0, s1, s2, gs, e0, e1, e2, ts, r0, r1, k0, k1] =
+      { diffuseColor := [halfToF32 d0, halfToF32 d1, halfToF32 d2], specularStrength := halfToF32 ss
+        specularColor := [halfToF32 s0, halfToF32 s1, halfToF32 s2], glossStrength := halfToF32 gs
+        emissiveColor := [halfToF32 e0, halfToF32 e1, halfToF32 e2], tileSet := ts
+        materialRepeat := [halfToF32 r0, halfToF32 r1], materialSkew := [halfToF32 k0, halfToF32 k1] } := rfl
+
+/-- dye bit fields: a stored legacy dye word decodes to the row it was packed from (bits 0–4 the
+five flags, bits 5–15 the template) — for every row with an 11-bit template. -/
+theorem c14_legacy_dye_bits (r : Spec.Mtrl.LegacyColorDyeTableRow) (h : Spec.Mtrl.wfLegacyDye r = true)
+    (t : Bytes) :
+    Mtrl.legacyColorDyeTableRow (putU16le (Spec.Mtrl.packLegacyDye r) ++ t) = .ok (r, t) :=
+  Mtrl.legacyDye_rt r h t
+
+/-- Dawntrail dye word: bits 0–11 the twelve flags, 16–26 the template, 27–28 the channel; the
+remaining bits are ignored. -/
+theorem c14_dawntrail_dye_bits (d : Spec.Mtrl.DawntrailDyeF) (h : Spec.Mtrl.wfDawntrailDye d = true)
+    (t : Bytes) :
+    Mtrl.dawntrailColorDyeTableRow (putU32le (Spec.Mtrl.packDawntrailDye d) ++ t) = .ok (d.row, t) :=
+  Mtrl.dawntrailDye_rt d h t
+
+/-- non-vacuity: one texture, the shader package name after it, a legacy colour table whose rows
+hold sixteen different halves (1.0, 2.0, 3.0, …), a legacy dye table, one key, one two-float
+constant, one sampler -/
+def exampleMaterial : Spec.Mtrl.MaterialF :=
+  { version := 0x01030000, fileSize := 0, dataSetSize := 0
+    textures := [[0x61, 0x2E, 0x74, 0x65, 0x78]]
+    heapRest := [0x62, 0x67, 0x2E, 0x73, 0x68, 0x70, 0x6B, 0], shaderPackageNameOffset := 6
+    textureOffsets := [0], uvSets := [{ nameOffset := 0, index := 0 }], colorSets := []
+    tableFlags := 0xC, additionalRest := []
+    colorTable := .legacy (List.replicate 16
+      [0x3C00, 0x4000, 0x4200, 0x4400, 0x4500, 0x4600, 0x4700, 0x4800, 0x4880, 0x4900, 0x4980, 7,
+       0x4A00, 0x4A80, 0x4B00, 0x4B80])
+    dyeTable := .legacy (List.replicate 16
+      { template := 1234, diffuse := true, specular := false, emissive := true, gloss := false
+        specularStrength := true })
+    shaderValueListSize := 8, materialFlags := 0
+    shaderKeys := [{ category := 1, value := 2 }]
+    constants := [{ constantId := 9, valueOffset := 0, valueSize := 8 }]
+    samplers := [{ textureUsage := 6, flags := 0, textureIndex := 0, unknown1 := 0, unknown2 := 0, unknown3 := 0 }]
+    shaderValues := [0x3F800000, 0x40000000], trailing := [] }
+
+example : Spec.Mtrl.WF exampleMaterial = true := by decide +kernel
+example : Mtrl.fromExisting (Spec.Mtrl.encode exampleMaterial) = .ok (Spec.Mtrl.view exampleMaterial) :=
+  c14_mtrl_parse_encode _ (by decide +kernel)
+/-- the green and blue components are those of the second and third stored half (2.0, 3.0), not
+copies of the first (defect D14) -/
+example : (match (Spec.Mtrl.view exampleMaterial).colorTable with
+    | some (.legacy (r :: _)) => r.diffuseColor | _ => []) = [0x3F800000, 0x40000000, 0x40400000] := by
+  decide +kernel
+example : (Spec.Mtrl.view exampleMaterial).shaderPackageName = [0x62, 0x67, 0x2E, 0x73, 0x68, 0x70, 0x6B] := by
+  decide +kernel
+example : (Spec.Mtrl.view exampleMaterial).constants.map (·.values) = [[0x3F800000, 0x40000000, 0, 0]] := by
+  decide +kernel
+example : Spec.Mtrl.wfLegacyDye ⟨2047, true, true, false, true, false⟩ = true := by decide
+example : Spec.Mtrl.wfDawntrailDye
+    ⟨⟨2047, 3, true, false, true, false, true, false, true, false, true, false, true, true⟩, 0xE000F000⟩ = true := by
+  decide
 
 /-! ## shader-key CRC -/
 
